@@ -11,7 +11,7 @@ from .interp import NUM, BUILTIN_CLASSES, VPoison
 from .comp import CompMixin, VRange, Source
 
 LAZY_SPEC = {"requires", "ensures", "raises", "modifies", "returns", "invariant", "may_raise", "reads", "foreach",
-             "bounded", "decreases", "shares", "cut_after", "types", "pure", "assume_contract", "implies", "iff", "ite", "forall", "exists", "old"}
+             "bounded", "decreases", "shares", "cut_after", "all_yields", "types", "pure", "assume_contract", "implies", "iff", "ite", "forall", "exists", "old"}
 LOG_NAMES = {"aldy.common.log"}
 EXC_CLASSES = {"ValueError", "TypeError", "KeyError", "IndexError", "StopIteration", "AttributeError", "Exception",
                "AssertionError", "OSError", "ZeroDivisionError", "AldyException", "NoSolutionsError"}
@@ -237,6 +237,8 @@ class CallMixin(CompMixin):
     def hasattr(self, st, v, name):
         if isinstance(v, VRec):
             return name in v.names
+        if isinstance(v, VLin):
+            return getattr(v, "var", None) is not None and name in ("integer", "lb", "ub", "solution_value", "name")
         if isinstance(v, VRef):
             h = self.resolve(st, v)
             if isinstance(h, HObj):
